@@ -34,14 +34,28 @@ func c04eMatch(re *regexp.Regexp, b []byte) bool {
 // be missing from the output only if the delivery queue was full when the
 // filter examined it; everything else arrives, in order, and the line after a
 // drop reports less than 100%.
-func VerifC04eFollowQueue(n, c int) {
+func VerifC04eFollowQueue(n, c int) { c04eRun(n, 0, c) }
+
+// VerifC04eTwoBursts: the same with a second burst of m lines appended after
+// the reader has hit end-of-file once (the reader, filter and handler work
+// with pooled buffers: what one line's drop gives back must not be handed to
+// two later lines).
+func VerifC04eTwoBursts(n, m, c int) { c04eRun(n, m, c) }
+
+func c04eRun(n, m, c int) {
 	dlog.VerifInstall(source.Server)
 	config.Server.MaxLineLength = 1024
 	var content []byte
-	for i := 0; i < n; i++ {
+	for i := 0; i < n+m; i++ {
 		content = append(content, byte('a'+i), '\n')
 	}
-	VerifDefault = &VerifSource{Content: content}
+	src := &VerifSource{Content: content}
+	if m > 0 {
+		// the writer appends n lines, the reader reaches end-of-file, then m more lines arrive
+		src.Chunks = []int{2 * n, 0, 2 * m}
+	}
+	VerifDefault = src
+	n = n + m
 	c04eLines = make(chan *line.Line, c)
 	c04eFull = map[byte]bool{}
 	pace := []time.Duration{0, 5 * time.Millisecond}[verifrt.Choose("consumer-pace", 2)]
